@@ -4,6 +4,8 @@ import (
 	"fmt"
 	"go/token"
 	"go/types"
+	"sort"
+	"strings"
 
 	"golang.org/x/tools/go/ssa"
 )
@@ -28,7 +30,7 @@ func init() {
 		ID:  "C10",
 		Run: runC10,
 		Explanation: "Decides: Running() is closed only on the edge where RunHandlers returned nil, RunHandlers returns nil only after its loop over all handlers, and every iteration either skips a started handler or passes Subscribe()==nil; Subscribe and the start goroutine are reachable only for not-yet-started handlers and 'started' is set in between, under the handlers write lock; " +
-			"in every function that closes a handler's Started() channel the close is behind Subscribe()==nil and no field that Stop()/Stopped() read is stored after it; the stop function is the cancel of the very context passed to this handler's Subscribe; the self-close watcher calls Close() on every path after the handlers ended unless already closed, and a second Run returns an error. Not decided: that user subscribers honour context cancellation.",
+			"in every function that closes a handler's Started() channel the close is behind Subscribe()==nil and no field that Stop()/Stopped() read is stored after it; the stop function is the cancel of the very context passed to this handler's Subscribe; the self-close watcher calls Close() on every path after the handlers ended unless already closed, and a second Run returns an error; the handler map is read and written under its lock in the lifecycle functions, the started flag is only ever raised, an explicit panic (duplicate handler name) leaves no router lock held, and the configuration's defaults are applied by every exported constructor. Not decided: that user subscribers honour context cancellation.",
 		Assumptions: commonAssumptions,
 	})
 }
@@ -300,6 +302,20 @@ func c08StructName(c *Check, P string) {
 		c.Report(FromParam(prm)(ta.X), P+".O3", "NAME-OF-THE-ARGUMENT", fn, ta.Pos(), "Stringer test", "String() is asked of the value that was passed in (not of something derived from it: a pointer receiver's String() is not in the method set of the pointed-to value)")
 	})
 	c.Floor(P+".O3", "fmt.Stringer test in internal.StructName", n, 1)
+	// the name is computed from the value on every call: two values of one type may name themselves differently
+	// (fmt.Stringer), so nothing is remembered between calls
+	nglob := 0
+	for _, f := range WithAnon(fn) {
+		AllInstrs(f, func(in ssa.Instruction) {
+			for _, op := range in.Operands(nil) {
+				if g, isG := (*op).(*ssa.Global); isG && g.Pkg == fn.Pkg {
+					nglob++
+					c.Report(false, P+".O3", "NAME-COMPUTED-PER-CALL", f, in.Pos(), "use of package variable "+g.Name(), "StructName keeps no state between calls (a cache keyed by type hands one value's String() to another value of the same type)")
+				}
+			}
+		})
+	}
+	c.Report(true, P+".O3", "NAME-STATE-SCANNED", fn, fn.Pos(), "internal.StructName", fmt.Sprintf("%d uses of package-level variables", nglob))
 	for _, cl := range CallsTo(fn, "fmt.Sprintf") {
 		els := VariadicElems(cl.Common().Args[1])
 		okArg := len(els) == 1 && FromParam(prm)(unwrapIface(els[0]))
@@ -308,8 +324,59 @@ func c08StructName(c *Check, P string) {
 	}
 }
 
+// c08MessageContext: the message's own context accessors — everything the router, the CQRS layer and the middlewares put
+// on a message's context travels through this pair.
+func c08MessageContext(c *Check, id string) {
+	M := c.P.Named("message", "Message")
+	if M == nil {
+		c.Floor(id, "type message.Message", 0, 1)
+		return
+	}
+	set, get := c.P.MethodOf(M, "SetContext"), c.P.MethodOf(M, "Context")
+	if !c.Use(id, set, "Message.SetContext") || !c.Use(id, get, "Message.Context") {
+		return
+	}
+	var ctxF *types.Var
+	if st, ok := M.Underlying().(*types.Struct); ok {
+		for i := 0; i < st.NumFields(); i++ {
+			if st.Field(i).Type().String() == "context.Context" {
+				ctxF = st.Field(i)
+			}
+		}
+	}
+	if !c.Floor(id, "context field of Message", b2i(ctxF != nil), 1) {
+		return
+	}
+	sts := FieldStores(set, ctxF)
+	okS := len(sts) == 1 && FromParam(set.Params[1])(sts[0].Val)
+	if okS {
+		for _, r := range Returns(set) {
+			if !Dominates(set, sts[0], r) {
+				okS = false
+			}
+		}
+	}
+	c.Report(okS, id, "MESSAGE-CONTEXT-SET", set, set.Pos(), "SetContext", "SetContext stores the given context in the message, on every path")
+	isF := func(v ssa.Value) bool { return AllOrigins(v, IsFieldLoad(ctxF)) }
+	isNil, nonNil := NilEdges(get, isF)
+	for i, r := range Returns(get) {
+		ok := false
+		switch {
+		case isF(r.Results[0]):
+			ok = len(nonNil) > 0 && GuardedBy(get, r, nonNil)
+		default:
+			ok = len(isNil) > 0 && GuardedBy(get, r, isNil) && AllOrigins(r.Results[0], func(o ssa.Value) bool {
+				cl, isCall := o.(*ssa.Call)
+				return isCall && (CalleeName(cl) == "context.Background" || CalleeName(cl) == "context.TODO")
+			})
+		}
+		c.Report(ok, id, "MESSAGE-CONTEXT-GET", get, r.Pos(), fmt.Sprintf("Context return#%d", i), "Context answers the stored context whenever one was set, and the background context only when none was")
+	}
+}
+
 func c08Context(c *Check, P string, r *RouterRoles2) {
 	c08StructName(c, P)
+	c08MessageContext(c, P+".O3")
 	// the context decorator: method of the handler type calling context.WithValue
 	var ctxFn *ssa.Function
 	for _, fn := range r.Funcs {
@@ -359,6 +426,19 @@ func c08Context(c *Check, P string, r *RouterRoles2) {
 							ta, isTA := e.Tuple.(*ssa.TypeAssert)
 							return isTA && ta.CommaOk && ta.AssertedType.String() == "string" && AllOrigins(ta.X, func(x ssa.Value) bool { return x == CallValue(v) })
 						})
+						// the empty answer is given only when the lookup found no string (the asserted value itself is "" then, so
+						// returning it unconditionally is fine — returning "" although a string was found is not)
+						if okV && AllOrigins(rr.Results[0], func(o ssa.Value) bool { s, isS := ConstString(o); return isS && s == "" }) {
+							_, notString := BoolEdges(cal, func(x ssa.Value) bool {
+								e, isE := x.(*ssa.Extract)
+								if !isE || e.Index != 1 {
+									return false
+								}
+								ta, isTA := e.Tuple.(*ssa.TypeAssert)
+								return isTA && ta.CommaOk && AllOrigins(ta.X, func(y ssa.Value) bool { return y == CallValue(v) })
+							})
+							okV = len(notString) > 0 && GuardedBy(cal, rr, notString)
+						}
 						c.Report(okV, P+".O3", "ACCESSOR-VALUE", cal, rr.Pos(), fmt.Sprintf("accessor helper return#%d", i), `the accessors answer the string stored under the key, and "" when nothing (or something that is not a string) is stored`)
 					}
 				}
@@ -516,7 +596,54 @@ func runC09(c *Check) {
 
 // c09All holds the C09 obligations (also run under C08: a foreign handler's
 // middleware wrapping this handler changes what its function receives/returns).
+// c09PluginsFirst: plugins may register middlewares and decorators; RunHandlers takes each handler's snapshot of them.
+func c09PluginsFirst(c *Check, P string, r *RouterRoles2) {
+	Run := r.Run
+	var plugF *types.Var
+	if st, ok := r.R.Underlying().(*types.Struct); ok {
+		for i := 0; i < st.NumFields(); i++ {
+			if sl, isS := st.Field(i).Type().(*types.Slice); isS && sl.Elem().String() == msgPkg+".RouterPlugin" {
+				plugF = st.Field(i)
+			}
+		}
+	}
+	if plugF == nil {
+		c.Note(P+".O1", "PLUGINS-BEFORE-HANDLERS", Run, Run.Pos(), "Router plugins", "the Router has no plugin list")
+		return
+	}
+	var calls []ssa.CallInstruction
+	for _, f := range WithStarted(Run) {
+		for _, cl := range CallsIn(f) {
+			if cl.Common().IsInvoke() || CalleeFn(cl.Common()) != nil {
+				continue
+			}
+			if AnyOrigin(cl.Common().Value, func(o ssa.Value) bool {
+				u, ok := o.(*ssa.UnOp)
+				if !ok || u.Op != token.MUL {
+					return false
+				}
+				if ia, isIA := u.X.(*ssa.IndexAddr); isIA {
+					return AllOrigins(ia.X, IsFieldLoad(plugF))
+				}
+				return false
+			}) {
+				calls = append(calls, cl)
+			}
+		}
+	}
+	if !c.Floor(P+".O1", "plugin invocations in Run", len(calls), 1) {
+		return
+	}
+	for _, rh := range Callers([]*ssa.Function{Run}, r.RunHandlers) {
+		after := ReachAfter(rh, nil)
+		for _, pc := range calls {
+			c.Report(!after[pc], P+".O1", "PLUGINS-BEFORE-HANDLERS", Run, pc.Pos(), "plugin invocation", "every plugin has run before Run starts the handlers: a middleware or decorator a plugin registers applies to the handlers present at Run")
+		}
+	}
+}
+
 func c09All(c *Check, P string, r *RouterRoles2) {
+	c09PluginsFirst(c, P, r)
 	// the three list fields of Router
 	mwT := c.P.Named("message", "middleware")
 	var lists []*types.Var
@@ -648,7 +775,38 @@ func c09All(c *Check, P string, r *RouterRoles2) {
 							// every element is registered: no iteration goes round without extending the list
 							if inc, isIns := ia.Index.(ssa.Instruction); isIns {
 								for _, ls := range FieldStores(fn, mwF) {
-									c.Report(!ReachWithout(inc, inc, ls), P+".O1", "REGISTRATION-EVERY-ELEMENT", fn, ls.Pos(), "list append in the registration loop", "every middleware of the argument list is appended (none is skipped, e.g. as an alleged duplicate: distinct middlewares can share a code pointer)")
+									okEvery := !ReachWithout(inc, inc, ls)
+									if !okEvery {
+										// or: every iteration appends the record to a local slice, and the list is extended by that whole slice
+										_, rec := FieldOf(stv.Addr)
+										var apps []ssa.Instruction
+										for _, ap := range BuiltinCalls(fn, "append") {
+											for _, el := range VariadicElems(ap.Common().Args[1]) {
+												if u2, isU := el.(*ssa.UnOp); isU && u2.Op == token.MUL && u2.X == rec {
+													apps = append(apps, ap)
+												}
+											}
+										}
+										if len(apps) > 0 && !ReachAfter(inc, NewCut().AddInstrs(apps...))[inc] {
+											if fin, isApp := firstOrigin(ls.Val).(*ssa.Call); isApp {
+												if args, isB := IsBuiltinCall(fin, "append"); isB && len(args) == 2 {
+													okEvery = AllOrigins(args[1], func(o ssa.Value) bool {
+														for _, ap := range apps {
+															if o == CallValue(ap.(ssa.CallInstruction)) {
+																return true
+															}
+														}
+														if ms, isMS := o.(*ssa.MakeSlice); isMS {
+															k, isC := IntConst(ms.Len)
+															return isC && k == 0
+														}
+														return IsNilConst(o)
+													})
+												}
+											}
+										}
+									}
+									c.Report(okEvery, P+".O1", "REGISTRATION-EVERY-ELEMENT", fn, ls.Pos(), "list append in the registration loop", "every middleware of the argument list is appended (none is skipped, e.g. as an alleged duplicate: distinct middlewares can share a code pointer)")
 								}
 							}
 						}
@@ -849,6 +1007,8 @@ func roleName(f, a, b, c *types.Var) string {
 // ---------------------------------------------------------------------------
 
 func runC10(c *Check) {
+	LostReceiverStores(c, "C10.CFG", "message")
+	DefaultsApplied(c, "C10.CFG", "message")
 	P := "C10"
 	r := c.routerRoles2(P)
 	if r == nil {
@@ -859,7 +1019,111 @@ func runC10(c *Check) {
 
 // c10Lifecycle holds the lifecycle obligations of C10; C06 (graceful Close:
 // "Run returns nil", "Close waits for the handlers") decides them too.
+// c10RouterSafety: the locking facts the lifecycle rests on.
+func c10RouterSafety(c *Check, P string, r *RouterRoles2) {
+	la := r.LA
+	// an explicit panic (duplicate handler name, …) is recovered by callers: it must not leave a router lock held
+	np := 0
+	for _, fn := range r.Funcs {
+		res := la.Result(fn)
+		AllInstrs(fn, func(in ssa.Instruction) {
+			pn, ok := in.(*ssa.Panic)
+			if !ok || in.Parent() != fn {
+				return
+			}
+			np++
+			var bad []string
+			for lid := range la.Held(pn) {
+				if _, atEntry := res.Entry[lid]; atEntry {
+					continue
+				}
+				covered := false
+				for _, d := range res.DeferredUnlock[lid] {
+					if Dominates(fn, d, pn) {
+						covered = true
+					}
+				}
+				if !covered {
+					bad = append(bad, lid)
+				}
+			}
+			sort.Strings(bad)
+			c.Report(len(bad) == 0, P+".O5", "PANIC-LEAVES-NO-LOCK", fn, pn.Pos(), "explicit panic", "a panic raised by the router itself (a recovered duplicate-name registration, …) leaves no router lock held: every lock held at the panic is released by a defer registered before it", "held without deferred unlock: "+strings.Join(bad, ","))
+		})
+	}
+	c.Report(true, P+".O5", "PANICS-SCANNED", nil, token.NoPos, "package scan", fmt.Sprintf("%d explicit panics in package message examined", np))
+	// the started flag of a handler is only ever raised (Stop and Stopped rely on it after the handler ended, too)
+	for _, fn := range r.Funcs {
+		for _, st := range FieldStores(fn, r.HStarted) {
+			cst, isC := st.Val.(*ssa.Const)
+			c.Report(isC && cst.Value != nil && cst.Value.String() == "true", P+".O3", "STARTED-FLAG-ONLY-RAISED", fn, st.Pos(), "store to the handler's started flag", "a handler's started flag is never lowered again: Stop() and Stopped() of a handler that has ended must stay usable")
+		}
+	}
+	// the handler map is read and written under the handlers lock
+	var hmap *types.Var
+	if st, ok := r.R.Underlying().(*types.Struct); ok {
+		for i := 0; i < st.NumFields(); i++ {
+			if m, isM := st.Field(i).Type().Underlying().(*types.Map); isM {
+				if p, isP := m.Elem().(*types.Pointer); isP && NamedOf(p) == r.HandlerT {
+					hmap = st.Field(i)
+				}
+			}
+		}
+	}
+	if c.Floor(P+".O2", "Router field holding the handlers (map to the private handler type)", b2i(hmap != nil), 1) {
+		lockID := ""
+		for _, a := range la.Accesses(hmap) {
+			if _, isMU := a.Ins.(*ssa.MapUpdate); isMU && HomeFn(a.Ins.Parent()) == r.AddHandler {
+				for lid, m := range la.Held(a.Ins) {
+					if m == 'W' {
+						lockID = lid
+					}
+				}
+			}
+		}
+		if c.Floor(P+".O2", "lock held when AddHandler registers the handler", b2i(lockID != ""), 1) {
+			// scope: the functions of the lifecycle the property speaks about (registration, start, run, stop, close) and what
+			// they call or start; a read-only snapshot accessor outside it is noted, not judged
+			inScope := map[*ssa.Function]bool{}
+			var mark func(f *ssa.Function, d int)
+			mark = func(f *ssa.Function, d int) {
+				if f == nil || inScope[f] || d > 6 || f.Pkg != r.Run.Pkg {
+					return
+				}
+				inScope[f] = true
+				for _, a := range f.AnonFuncs {
+					mark(a, d+1)
+				}
+				for _, cl := range rawCallsIn(f) {
+					mark(CalleeFn(cl.Common()), d+1)
+				}
+			}
+			for _, f := range []*ssa.Function{r.AddHandler, r.Run, r.RunHandlers, r.Close, c.P.MethodOf(r.R, "AddNoPublisherHandler"), c.P.Method("message", "Handler", "Stop"), c.P.Method("message", "Handler", "Stopped"), c.P.Method("message", "Handler", "Started")} {
+				mark(f, 0)
+			}
+			n := 0
+			for _, a := range la.Accesses(hmap) {
+				fn := a.Ins.Parent()
+				if a.What == "load" || (HomeFn(fn).Signature.Recv() == nil && a.What == "store") {
+					continue // the load of the field itself; the constructor's store
+				}
+				if !inScope[HomeFn(fn)] && !inScope[fn] {
+					if _, held := la.Held(a.Ins)[lockID]; !held {
+						c.Note(P+".O2", "HANDLERS-MAP-GUARDED", fn, a.Ins.Pos(), a.What+" of the handler map outside the lifecycle functions", "not under the handlers lock; outside the functions this property is stated over (a caller that uses it concurrently with handlers being added or ending races)")
+					}
+					continue
+				}
+				n++
+				m := la.Held(a.Ins)[lockID]
+				c.Report(m == 'W' || (!a.Write && m == 'R'), P+".O2", "HANDLERS-MAP-GUARDED", fn, a.Ins.Pos(), a.What+" of the handler map", "the router's handler map is read under its lock and written under the write lock (handlers end, are added and are started concurrently)", "held: "+la.Held(a.Ins).String())
+			}
+			c.Floor(P+".O2", "accesses to the handler map", n, 4)
+		}
+	}
+}
+
 func c10Lifecycle(c *Check, P string, r *RouterRoles2) {
+	c10RouterSafety(c, P, r)
 	Run, RH := r.Run, r.RunHandlers
 	// O1
 	rhCalls := Callers([]*ssa.Function{Run}, RH)
@@ -1071,9 +1335,13 @@ func c10Lifecycle(c *Check, P string, r *RouterRoles2) {
 		}
 	}
 	// only Close (through its wait helper) waits for the in-flight invocations of the whole router
+	waitFam := map[*ssa.Function]bool{}
+	for _, f := range WithStarted(r.WaitFn) {
+		waitFam[f] = true
+	}
 	for _, fn := range r.Funcs {
 		for _, w := range r.waitsOn(fn, r.WRun) {
-			c.Report(HomeFn(fn) == r.WaitFn || fn.Parent() == r.WaitFn || HomeFn(fn).Parent() == r.WaitFn, P+".O4", "WHO-WAITS-FOR-INVOCATIONS", fn, w.Pos(), "Wait on the in-flight wait group", "only Router.Close's wait helper waits for the router-wide in-flight invocations (a single handler's shutdown must not depend on other handlers' work)")
+			c.Report(waitFam[fn] || HomeFn(fn) == r.WaitFn || fn.Parent() == r.WaitFn || HomeFn(fn).Parent() == r.WaitFn, P+".O4", "WHO-WAITS-FOR-INVOCATIONS", fn, w.Pos(), "Wait on the in-flight wait group", "only Router.Close's wait helper waits for the router-wide in-flight invocations (a single handler's shutdown must not depend on other handlers' work)")
 		}
 	}
 	// Stopped() is closed when the run loop ended
